@@ -682,9 +682,22 @@ class Gen:
     # ------------------------------------------------------------------ idioms
     def s_idiom(self, ctx):
         r = self.r
-        k = r.randrange(0, 15)
+        k = r.randrange(0, 16)
         s = self.fresh("")
         V = A.Var
+        if k == 15:     # documented evaluation orders made visible by a printing pass-through function
+            self.feat("evaluation_order")
+            tr = "tr" + s
+            t = lambda tag, v: A.call(tr, A.Str(tag), v)
+            return [
+                A.FuncStmt(tr, [V("tag"), V("v")], False, [A.pr(V("tag")), A.Return(V("v"))]),
+                A.pr(A.ObjectE([A.Pair(t("n1", A.Str(r.choice(KEY_POOL))), t("v1", self.expr(INT, ctx, 2))), A.Pair(t("n2", A.Str(r.choice(KEY_POOL))), t("v2", A.Int(2))),
+                                A.Pair(A.Str("plain"), t("v3", A.Int(3)))])),
+                A.pr(A.lst(t("e1", A.Int(1)), t("e2", self.expr(STR, ctx, 2)), t("e3", A.lst(t("e3a", A.Null()))))),
+                A.pr(A.Call(V(tr), [(t("a1", A.Str("arg tag")), False), (t("a2", A.Int(5)), False)])),
+                A.pr(A.IStr(["<", t("s1", A.Str("x")), "|", t("s2", self.expr(STR, ctx, 2)), ">"])),
+                A.pr(A.Index(A.lst(t("i1", A.Int(10)), t("i2", A.Int(20))), A.Int(r.randrange(0, 2)))),
+            ]
         if k == 0:      # counter closure
             self.feat("closure_counter")
             mk, c1, c2 = "mk" + s, "ca" + s, "cb" + s
